@@ -94,6 +94,7 @@ Fixpoint run_fx (l : list fx) (a : arg) (s : ist) (lp : option prog) (tmp : opti
       | _ => (s, RErrVerifier)
       end
     | FxTakeExecMem => run_fx l' a s lp tmp tu tc               (* executable memory is not part of this state machine *)
+    | FxSetExecMem => run_fx l' a s lp tmp tu tc
     | FxRequireProg =>
       match i_prog s with
       | Some p => run_fx l' a s (Some p) tmp tu tc
@@ -135,6 +136,7 @@ Proof.
   - destruct sp as [p|]; [destruct (compilable p sh)|]; reflexivity.
   - destruct sp as [p|]; [destruct (compilable p sh)|]; reflexivity.
 Qed.
+
 End Fx.
 
 (** C20: the same methods compiled without the std feature have the same effects, except that jit_compile takes the
@@ -149,3 +151,12 @@ Theorem no_std_effects_agree :
   filter not_take gen_fx_jit_compile_no_std = gen_fx_jit_compile /\
   (exists rest, gen_fx_jit_compile_no_std = FxRequireProg :: FxTakeExecMem :: rest).
 Proof. repeat split. eexists. reflexivity. Qed.
+
+(** C20: handing executable memory to the VM (a method that exists only without std) changes nothing this state machine holds:
+    program, verifier, helpers, frame sizes -- and the code compiled earlier, which keeps running from the memory it is in *)
+Theorem exec_memory_setter_is_neutral :
+  gen_fx_set_jit_exec_memory_no_std = [FxSetExecMem] /\
+  forall (prog vf helpers calc : Type) (accepts : vf -> prog -> bool) (hadd : helpers -> Z -> helpers)
+         (compilable : prog -> helpers -> bool) (a : arg prog vf calc) (s : ist prog vf helpers calc),
+    fx_call prog vf accepts helpers hadd calc compilable gen_fx_set_jit_exec_memory_no_std a s = (s, RUnit).
+Proof. split; [reflexivity|intros; reflexivity]. Qed.
